@@ -511,9 +511,95 @@ pub struct Exec {
 	pub calls: usize,
 	/// the injected I/O error was actually returned to the crate
 	pub fired: bool,
+	/// number of calls within which the reader must have reported end of stream
+	pub budget: Budget,
 }
 
-fn drive<'de, R>(ctor: impl FnOnce() -> Result<Reader<R>, FailedToInitializeReader>, n_written: usize) -> Vec<Res>
+/// How many `deserialize_next` calls a reader that consumes one declared object per call can need
+/// on this (damaged) file: a lenient walk over the block framing — counts and sizes as declared,
+/// whatever the data and the sync markers are.
+#[derive(Clone, Copy, Debug, PartialEq, Eq)]
+pub enum Budget {
+	/// sum of the declared object counts + number of blocks + 8
+	Calls(usize),
+	/// a declared count above `HUGE_COUNT`: no verdict on progress
+	Huge,
+	/// the header cannot be walked by the model: no verdict on progress
+	Unreadable,
+}
+const HUGE_COUNT: i64 = 10_000;
+
+struct Walk<'a> {
+	b: &'a [u8],
+	i: usize,
+}
+impl<'a> Walk<'a> {
+	fn long(&mut self) -> Option<i64> {
+		let mut u: u64 = 0;
+		for k in 0..10 {
+			let byte = *self.b.get(self.i)?;
+			self.i += 1;
+			u |= ((byte & 0x7f) as u64) << (7 * k);
+			if byte & 0x80 == 0 {
+				return Some(vmodel::value::unzigzag(u));
+			}
+		}
+		None
+	}
+	fn skip(&mut self, n: i64) -> Option<()> {
+		if n < 0 || (n as u64) > (self.b.len() - self.i) as u64 {
+			return None;
+		}
+		self.i += n as usize;
+		Some(())
+	}
+}
+
+pub fn lenient_budget(bytes: &[u8]) -> Budget {
+	let mut w = Walk { b: bytes, i: 0 };
+	let header = (|| -> Option<()> {
+		w.skip(4)?;
+		loop {
+			let n = w.long()?;
+			if n == 0 {
+				break;
+			}
+			if n < 0 {
+				w.long()?;
+			}
+			for _ in 0..n.unsigned_abs() {
+				let k = w.long()?;
+				w.skip(k)?;
+				let v = w.long()?;
+				w.skip(v)?;
+			}
+		}
+		w.skip(16)
+	})();
+	if header.is_none() {
+		return Budget::Unreadable;
+	}
+	let mut sum: usize = 0;
+	let mut blocks = 0usize;
+	while w.i < bytes.len() {
+		let Some(count) = w.long() else { break };
+		if count > HUGE_COUNT {
+			return Budget::Huge;
+		}
+		if count < 0 {
+			break;
+		}
+		blocks += 1;
+		sum += count as usize;
+		let Some(size) = w.long() else { break };
+		if size < 0 || w.skip(size).is_none() || w.skip(16).is_none() {
+			break;
+		}
+	}
+	Budget::Calls(sum + blocks + 8)
+}
+
+fn drive<'de, R>(ctor: impl FnOnce() -> Result<Reader<R>, FailedToInitializeReader>, n_written: usize, budget: Budget) -> Vec<Res>
 where
 	R: ARead + Take + BufRead + ReadSlice<'de>,
 	<R as Take>::Take: BufRead + ReadSlice<'de>,
@@ -534,7 +620,13 @@ where
 		}
 		Ok(Ok(r)) => r,
 	};
-	let max_calls = n_written + 2 + CALLS_AFTER_STOP;
+	// keep calling until end of stream has been reported (then CALLS_AFTER_STOP - 1 further calls), at most
+	// as long as the progress budget allows; without a budget: a few calls past the first non-value
+	let max_calls = match budget {
+		Budget::Calls(b) => b + CALLS_AFTER_STOP,
+		_ => n_written + 2 + CALLS_AFTER_STOP,
+	};
+	let with_budget = matches!(budget, Budget::Calls(_));
 	let mut after_stop = 0;
 	for _ in 0..max_calls {
 		let r = catch_unwind(AssertUnwindSafe(|| reader.deserialize_seed_next(ObsSeed(&Hint::Any))));
@@ -549,7 +641,7 @@ where
 			Ok(Ok(None)) => Res::None,
 			Ok(Err(e)) => Res::Err { io: e.io_error().is_some(), ctor: false, msg: e.to_string() },
 		};
-		let stop = !matches!(res, Res::Val(_));
+		let stop = if with_budget { matches!(res, Res::None) } else { !matches!(res, Res::Val(_)) };
 		seq.push(res);
 		if stop || after_stop > 0 {
 			after_stop += 1;
@@ -562,9 +654,10 @@ where
 }
 
 pub fn exec_raw(bytes: &[u8], fail_at: Option<usize>, kind: usize, n_written: usize) -> Exec {
+	let budget = lenient_budget(bytes);
 	if kind == 0 {
-		let seq = drive(|| Reader::from_slice(bytes), n_written);
-		return Exec { seq, calls: 0, fired: false };
+		let seq = drive(|| Reader::from_slice(bytes), n_written, budget);
+		return Exec { seq, calls: 0, fired: false, budget };
 	}
 	let calls = Rc::new(Cell::new(0));
 	let fired = Rc::new(Cell::new(false));
@@ -578,8 +671,9 @@ pub fn exec_raw(bytes: &[u8], fail_at: Option<usize>, kind: usize, n_written: us
 			Reader::new(rr)
 		},
 		n_written,
+		budget,
 	);
-	Exec { seq, calls: calls.get(), fired: fired.get() }
+	Exec { seq, calls: calls.get(), fired: fired.get(), budget }
 }
 
 pub fn exec(u: &Built, c: &Case) -> (Vec<u8>, Exec) {
@@ -599,6 +693,21 @@ pub fn judge(u: &Built, c: &Case, e: &Exec) -> Vec<(&'static str, String)> {
 	// never a panic (all classes)
 	if let Some(Res::Panic(m)) = seq.iter().find(|r| matches!(r, Res::Panic(_))) {
 		out.push(("panic", format!("the reader panicked: {m}")));
+	}
+	// progress (all classes): a reader that consumes one declared object per call reports end of stream within
+	// sum(declared counts) + blocks + 8 calls, also when the caller keeps calling after errors
+	if let Budget::Calls(b) = e.budget {
+		let ctor_failed = matches!(seq.first(), Some(Res::Err { ctor: true, .. }));
+		let panicked = seq.iter().any(|r| matches!(r, Res::Panic(_)));
+		let first_none = seq.iter().position(|r| matches!(r, Res::None));
+		if !ctor_failed && !panicked && first_none.map_or(true, |i| i >= b) {
+			let last = seq.last().map(|r| r.short()).unwrap_or_default();
+			let same_tail = seq.iter().rev().take_while(|r| Some(*r) == seq.last()).count();
+			out.push((
+				"no-progress-after-error",
+				format!("end of stream not reported within {b} calls (declared object counts + blocks + 8 of the damaged file); the last {same_tail} calls all returned {last}"),
+			));
+		}
 	}
 	// an error that carries an I/O error is unrecoverable: reported once, then end of stream (all classes)
 	if let Some(i) = seq.iter().position(|r| matches!(r, Res::Err { io: true, .. })) {
@@ -683,6 +792,21 @@ pub fn judge(u: &Built, c: &Case, e: &Exec) -> Vec<(&'static str, String)> {
 	out
 }
 
+/// "a, b x3, c": consecutive equal items folded.
+fn rle(items: &[String]) -> String {
+	let mut out: Vec<String> = Vec::new();
+	let mut i = 0;
+	while i < items.len() {
+		let mut j = i;
+		while j < items.len() && items[j] == items[i] {
+			j += 1;
+		}
+		out.push(if j - i > 1 { format!("{} x{}", items[i], j - i) } else { items[i].clone() });
+		i = j;
+	}
+	out.join(", ")
+}
+
 pub fn describe(u: &Built, c: &Case, bytes: &[u8], e: &Exec) -> String {
 	format!(
 		"file: codec {} schema {} blocks {:?} ({}, {} bytes, hex {}); damage {:?} -> {} bytes read through {}{}; written values [{}]; results of successive deserialize_next calls: [{}]",
@@ -697,7 +821,7 @@ pub fn describe(u: &Built, c: &Case, bytes: &[u8], e: &Exec) -> String {
 		KINDS[c.kind()],
 		if bytes != u.bytes { format!(" (damaged file hex {})", hex(bytes).replace(' ', "")) } else { String::new() },
 		u.written.iter().map(show_o).collect::<Vec<_>>().join(", "),
-		e.seq.iter().map(|r| r.short()).collect::<Vec<_>>().join(", "),
+		rle(&e.seq.iter().map(|r| r.short()).collect::<Vec<_>>()),
 	)
 }
 
@@ -862,8 +986,40 @@ fn run_case(u: &Built, c: &Case) -> CaseOutcome {
 		}
 		_ => {}
 	}
-	let letters: String = seq.iter().map(|r| r.letter()).collect();
-	let sample = if nontrivial && n_vals > 0 && has_err { Some(json!({"codec": CODECS[u.desc.codec], "schema": u.schema_text, "layout": u.desc.layout, "case": format!("{c:?}"), "reader": KINDS[c.kind()], "results": seq.iter().map(|r| r.short()).collect::<Vec<_>>()})) } else { None };
+	match e.budget {
+		Budget::Calls(_) => {
+			counters.push("progress_judged");
+			let first_none = seq.iter().position(|r| matches!(r, Res::None)).unwrap_or(seq.len());
+			if seq[..first_none].iter().filter(|r| matches!(r, Res::Err { ctor: false, .. })).count() >= 2 {
+				counters.push("progress_eos_reached_after_several_errors");
+			}
+		}
+		Budget::Huge => counters.push("progress_no_verdict_huge_declared_count"),
+		Budget::Unreadable => counters.push(if ctor_ok { "progress_no_verdict_header_unreadable_but_reader_constructed" } else { "progress_no_verdict_header_unreadable(reader construction failed too)" }),
+	}
+	// runs longer than 8 are folded to "x+" so that the shape table stays small
+	let letters: String = {
+		let raw: Vec<char> = seq.iter().map(|r| r.letter()).collect();
+		let mut o = String::new();
+		let mut i = 0;
+		while i < raw.len() {
+			let mut j = i;
+			while j < raw.len() && raw[j] == raw[i] {
+				j += 1;
+			}
+			if j - i > 8 {
+				o.push(raw[i]);
+				o.push('+');
+			} else {
+				for _ in i..j {
+					o.push(raw[i]);
+				}
+			}
+			i = j;
+		}
+		o
+	};
+	let sample = if nontrivial && n_vals > 0 && has_err { Some(json!({"codec": CODECS[u.desc.codec], "schema": u.schema_text, "layout": u.desc.layout, "case": format!("{c:?}"), "reader": KINDS[c.kind()], "results": rle(&seq.iter().map(|r| r.short()).collect::<Vec<_>>())})) } else { None };
 	let mut counters: Vec<String> = counters.into_iter().map(|s| s.to_owned()).collect();
 	counters.extend(dyn_counters);
 	let shape = format!("{class}:{letters}");
@@ -1176,7 +1332,7 @@ pub fn run(rep: &mut Report) {
 		}
 	}
 	rep.rule = format!(
-		"Fault enumeration: {} valid container files (6 codecs x schemas long/string/record{{a:long,b:string}}, 1-3 blocks of {} datums, pairwise distinct values; plus null-schema files for the no-panic part; written by the crate's Writer with pinned sync marker, plus files with empty blocks written by vmodel::cf_write; each cross-checked with vmodel::cf_parse; {}..{} bytes) x [truncation at every offset 0..=len] x [single-byte corruption at every offset with {}] x [I/O error at every read-call index, reader kinds only]{} x [framing damage located by the model: header sync / block sync bytes {}, declared size +-1, declared count +-1, snappy CRC bytes] x reader kind {{slice, ChunkedBufRead 1-byte chunks, ChunkedBufRead whole buffer{}}}; every case = one damaged file on the real Reader, up to n+{} deserialize_next calls, in a worker subprocess with a {} s per-case horizon. Oracle: never a panic/hang; truncation and read errors: the Ok(Some) results are exactly a prefix of the written values and none follows the first Err/None; the error reported for a truncated file is followed only by Ok(None); an Err carrying an I/O error is followed only by Ok(None); an injected read error is reported by exactly one call and then Ok(None); model-located sync/size/count/CRC damage yields an Err before end of stream (sync: then only Ok(None)); corruption: no panic, no hang, I/O-error-then-EOS. An early Err on an undamaged deflate/bzip2/xz file through a small-refill reader (D14) is not judged here. states = cases + deserialize_next results, transitions = deserialize_next results. Non-trivial = damaged case in which the Reader was constructed and then reported an error, ended early or returned a changed value; distinct on (file, damage, reader kind).",
+		"Fault enumeration: {} valid container files (6 codecs x schemas long/string/record{{a:long,b:string}}, 1-3 blocks of {} datums, pairwise distinct values; plus null-schema files for the no-panic part; written by the crate's Writer with pinned sync marker, plus files with empty blocks written by vmodel::cf_write; each cross-checked with vmodel::cf_parse; {}..{} bytes) x [truncation at every offset 0..=len] x [single-byte corruption at every offset with {}] x [I/O error at every read-call index, reader kinds only]{} x [framing damage located by the model: header sync / block sync bytes {}, declared size +-1, declared count +-1, snappy CRC bytes] x reader kind {{slice, ChunkedBufRead 1-byte chunks, ChunkedBufRead whole buffer{}}}; every case = one damaged file on the real Reader, called until end of stream has been reported (+5 calls) but at most B+{} times, B = sum of the declared object counts + blocks + 8 from a lenient model walk over the damaged file's block framing (n+8 calls when a declared count exceeds 10000 or the header cannot be walked: no progress verdict, counted), in a worker subprocess with a {} s per-case horizon. Oracle: never a panic/hang; progress (all classes): Ok(None) is reported within B calls also when the caller keeps calling after errors; truncation and read errors: the Ok(Some) results are exactly a prefix of the written values and none follows the first Err/None; the error reported for a truncated file is followed only by Ok(None); an Err carrying an I/O error is followed only by Ok(None); an injected read error is reported by exactly one call and then Ok(None); model-located sync/size/count/CRC damage yields an Err before end of stream (sync: then only Ok(None)); corruption: no panic, no hang, I/O-error-then-EOS. An early Err on an undamaged deflate/bzip2/xz file through a small-refill reader (D14) is not judged here. states = cases + deserialize_next results, transitions = deserialize_next results. Non-trivial = damaged case in which the Reader was constructed and then reported an error, ended early or returned a changed value; distinct on (file, damage, reader kind).",
 		descs.len(),
 		if thorough { "1, 2 or 4 (all 39 layouts, plus [3] and [1,2,1])" } else { "1, 2 or 4 (all 12 layouts of <= 2 blocks, plus [3], [2,1] and [1,2,1])" },
 		sizes.iter().min().unwrap(),
@@ -1185,7 +1341,7 @@ pub fn run(rep: &mut Report) {
 		if thorough { " x [truncation at every offset + I/O error at every read-call index, on the deep files]" } else { "" },
 		if thorough { "0..16 x {^0x01, ^0x80}" } else { "{0, 7, 15} x ^0x01" },
 		if thorough { ", 3-byte chunks, 16-byte chunks" } else { "" },
-		2 + CALLS_AFTER_STOP,
+		CALLS_AFTER_STOP,
 		horizon_s()
 	);
 	rep.assumptions.push("vmodel::container::cf_parse (independent parser: libflate, streaming bzip2/xz, snap::raw + own CRC-32, zstd decode_all) accepts exactly valid container files; it is the judge of the undamaged files and the locator of framing fields".into());
@@ -1231,6 +1387,9 @@ pub fn run(rep: &mut Report) {
 		"size_damage_reported",
 		"count_damage_reported",
 		"crc_damage_reported",
+		"progress_judged",
+		"progress_eos_reached_after_several_errors",
+		"progress_no_verdict_huge_declared_count",
 	];
 	// (a run that already has an unlisted violation is decided by that violation, not by the guards)
 	let known = crate::report::load_known();
